@@ -4,6 +4,7 @@ publish, unpublish ≺ GP ≺ unlink ≺ GP ≺ free, resize loop / lazy launch 
 resize under resize_mutex."""
 from .. import ir, mm, pat, pow2
 from ..core import Broken
+from . import lfht
 
 META = {
     "explanation": "Def-use (abstract value Pow2/Pow2OrZero/Any with guard refinement and field assume/guarantee) on every value stored to "
@@ -102,7 +103,7 @@ def _max_args(m, f):
     return out
 
 
-def rule_pow2(ctx, rep):
+def rule_pow2(ctx, rep, pfx="C09"):
     m = ctx.mod("cds", "flat")
     an = pow2.Analysis(m, AG_FIELDS)
     n = 0
@@ -120,23 +121,23 @@ def rule_pow2(ctx, rep):
             site = e.inst.where()
             org = e.inst.origin_fn
             inst = "%s:%s@%s" % (f.name, org, e.inst.short())
-            key = "C09.pow2:%s→cds_lfht.resize_target" % org
+            key = pfx + ".pow2:%s→cds_lfht.resize_target" % org
             if v is None:
-                rep.bad("C09.pow2", inst, "resize_target modified by an arithmetic RMW (%s): value not a power of two in general" % e.rop, [site], key=key)
+                rep.bad(pfx + ".pow2", inst, "resize_target modified by an arithmetic RMW (%s): value not a power of two in general" % e.rop, [site], key=key)
                 continue
             val = an.value(f, v, e.inst)
             vs = ir.expr_str(ir.expr(f, v, 6))
             if val == pow2.P:
-                rep.ok("C09.pow2", inst, "value stored to resize_target is a power of two >= 1: %s" % vs[:160], [site])
+                rep.ok(pfx + ".pow2", inst, "value stored to resize_target is a power of two >= 1: %s" % vs[:160], [site])
             else:
-                rep.bad("C09.pow2", inst, "value stored to cds_lfht.resize_target is %s, not provably a power of two (origin %s): `size` only takes values 1<<i, so the "
+                rep.bad(pfx + ".pow2", inst, "value stored to cds_lfht.resize_target is %s, not provably a power of two (origin %s): `size` only takes values 1<<i, so the "
                         "resize loop `while (size != resize_target)` cannot terminate for such a target" % (val, vs[:200]), [site], key=key)
             bd = bounded(f, v, e.inst, maxsrc)
-            keyb = "C09.clamp:%s→cds_lfht.resize_target" % org
+            keyb = pfx + ".clamp:%s→cds_lfht.resize_target" % org
             if bd:
-                rep.ok("C09.clamp", inst, "value stored to resize_target is clamped to max_nr_buckets", [site])
+                rep.ok(pfx + ".clamp", inst, "value stored to resize_target is clamped to max_nr_buckets", [site])
             else:
-                rep.bad("C09.clamp", inst, "value stored to cds_lfht.resize_target is not clamped to max_nr_buckets (origin %s)" % vs[:200], [site], key=keyb)
+                rep.bad(pfx + ".clamp", inst, "value stored to cds_lfht.resize_target is not clamped to max_nr_buckets (origin %s)" % vs[:200], [site], key=keyb)
     if n < 4:
         raise Broken("only %d stores to cds_lfht.resize_target found (hand-confirmed: new, resize, lazy grow, lazy count grow/shrink)" % n)
 
@@ -248,7 +249,7 @@ def rule_loop(ctx, rep):
                   "%s does not re-test in_progress_destroy inside its level loop" % name, [t.name])
 
 
-def rule_partition(ctx, rep):
+def rule_partition(ctx, rep, rid="C09.partition"):
     """partition_resize_helper: the whole range is processed on every return: either worker threads ran and were
     joined (thread count != 0) and nothing is left (start == 0), or the remaining range is done inline"""
     from . import lfht
@@ -278,12 +279,12 @@ def rule_partition(ctx, rep):
             pat.leaf_atoms(e if e[0] in ("icmp", "bin", "select") else ("icmp", "ne", e, ("c", 0)), k == 0, lv)
             if any((a[0] in ("ugt", "ne") and a[1] == bound and a[2] == ("c", 0)) or (a[0] == "uge" and a[1] == bound and a[2][0] == "c" and a[2][1] >= 1) for a in lv):
                 good.append((b.id, s_))
-    rep.must_take_edge("C09.partition", "helper.inline-unless-threads-ran", f, joins, None, good, to_exit=True, include_start=False, avoid=lambda i: i in fb,
+    rep.must_take_edge(rid, "helper.inline-unless-threads-ran", f, joins, None, good, to_exit=True, include_start=False, avoid=lambda i: i in fb,
                        what="after joining, the helper returns without running the inline fallback only if at least one worker thread was created")
-    rep.must_take_edge("C09.partition", "helper.fallback-or-threads", f, [f.entry()], None, good, to_exit=True, include_start=True, avoid=lambda i: i in fb,
+    rep.must_take_edge(rid, "helper.fallback-or-threads", f, [f.entry()], None, good, to_exit=True, include_start=True, avoid=lambda i: i in fb,
                        what="every return either ran the inline fallback or passed the `threads created > 0` test")
     for i in fb:
-        rep.check(ir.expr(f, i.args[0]) == ("arg", 0) and ir.expr(f, i.args[1]) == ("arg", 1), "C09.partition", "helper.fallback-args", "fallback processes the same table and level", "fallback called on different table/level", [i.where()])
+        rep.check(ir.expr(f, i.args[0]) == ("arg", 0) and ir.expr(f, i.args[1]) == ("arg", 1), rid, "helper.fallback-args", "fallback processes the same table and level", "fallback called on different table/level", [i.where()])
 
 
 def rule_order(ctx, rep):
@@ -298,5 +299,7 @@ RULES = [
     ("C09.order", rule_order),
     ("C09.loop", rule_loop),
     ("C09.partition", rule_partition),
+    ("C09.chain", lambda c, r: lfht.rule_chain(c, r, "C09.chain")),
+    ("C09.bucket", lambda c, r: lfht.rule_bucket(c, r, "C09.bucket")),
 ]
 FLOORS = {"C09.pow2": 4}
